@@ -28,6 +28,10 @@ type c01Case struct {
 	// Prime: when set, a FRESH parser first lifts the same word at this address and is then
 	// used for the case itself (lifting must not depend on what a parser lifted before).
 	Prime *uint64 `json:"prime_pc,omitempty"`
+	// Shared: the word is held in ONE byte buffer which is first offered to the base-ISA parser
+	// of the same XLEN (it refuses M and A words) and then lifted from that same buffer — the
+	// way one code image is handed from front end to front end.
+	Shared bool `json:"shared_buffer,omitempty"`
 }
 
 func (c c01Case) pre() *rvx.Pre {
@@ -83,7 +87,16 @@ func c01Run(c c01Case) (*eng.Fail, bool) {
 	if c.Prime != nil {
 		tag += " (after lifting the same word elsewhere)"
 	}
-	p, stack := eng.Catch(func() { in, err = ps.Parse(model.Addr(c.PC), rvx.WordBytes(c.Word)) })
+	buf := rvx.WordBytes(c.Word)
+	if c.Shared {
+		tag += " (word in a buffer other front ends were offered before)"
+		pset := getParsers()
+		if base := (rvx.Cfg{XLEN: c.Cfg.XLEN}); base != c.Cfg {
+			eng.Catch(func() { pset[base].Parse(model.Addr(c.PC), buf) })
+		}
+		putParsers(pset)
+	}
+	p, stack := eng.Catch(func() { in, err = ps.Parse(model.Addr(c.PC), buf) })
 	if p != nil {
 		return &eng.Fail{Sig: tag + " lift-panic " + eng.PanicSite(stack), What: fmt.Sprintf("%s: lifting %s (%08x) at %#x panics: %v", c.Cfg, name, c.Word, c.PC, p), Case: c}, true
 	}
@@ -231,7 +244,7 @@ func buildWords(row rvref.Row, rd, rs1, rs2 uint32, all bool) []uint32 {
 
 func init() {
 	checks["C01"] = eng.Check{
-		Rule: "for RV32 and RV64 (all of I, M, A): (a) semantics: every mnemonic x distinct registers x immediate alphabets (22 twelve-bit, 14 branch, 15 jump, 8 upper immediates, every shift amount, 10 CSR numbers) x operand values V64^2 (26 boundary values; thorough ~190) x 2 addresses x 2 memory seeds; (b) aliasing: every mnemonic x all 4^3 register choices from {x0,x1,x2,x31} x 7^2 values (incl. values whose low bytes are zero); (c) every register number 0..31 in each field, and identical effects in all 4 extension subsets; (d) all 4096 I/S immediates, all 4096 branch offsets, all 4096 CSR numbers per mnemonic x 3 values (thorough: all 2^20 U and J immediates); (e) pc-relative instructions at 9 addresses up to the top of the address space; (f) history independence: for every mnemonic a FRESH parser first lifts the same word at another address and is then used for the case. A parser is never shared between goroutines. Lifted effects applied by the independent IR evaluator to the pre-state and compared with the reference interpreter on x1..x31, touched CSRs, written memory bytes and pc; keys must be x1..x31/csr0..csr4095/ip. Non-trivial = executed case inside the domain (no access straddling 2^XLEN).",
+		Rule: "for RV32 and RV64 (all of I, M, A): (a) semantics: every mnemonic x distinct registers x immediate alphabets (22 twelve-bit, 14 branch, 15 jump, 8 upper immediates, every shift amount, 10 CSR numbers) x operand values V64^2 (26 boundary values; thorough ~190) x 2 addresses x 2 memory seeds; (b) aliasing: every mnemonic x all 4^3 register choices from {x0,x1,x2,x31} x 7^2 values (incl. values whose low bytes are zero); (c) every register number 0..31 in each field, and identical effects in all 4 extension subsets; (d) all 4096 I/S immediates, all 4096 branch offsets, all 4096 CSR numbers per mnemonic x 3 values (thorough: all 2^20 U and J immediates); (e) pc-relative instructions at 9 addresses up to the top of the address space; (f) history independence: for every mnemonic a FRESH parser first lifts the same word at another address and is then used for the case; (g) for every mnemonic the word is held in one byte buffer that is first offered to the base-ISA parser (which refuses M and A words) and then lifted from that buffer by the configuration's parser (register-register and atomic forms with every rs2 and aq/rl). A parser is never shared between goroutines. Lifted effects applied by the independent IR evaluator to the pre-state and compared with the reference interpreter on x1..x31, touched CSRs, written memory bytes and pc; keys must be x1..x31/csr0..csr4095/ip. Non-trivial = executed case inside the domain (no access straddling 2^XLEN).",
 		Assumptions: []string{
 			"register/memory values are boundary alphabets, not all 2^64 values (the gadgets are covered for all width-1 operands by C11)",
 			"memory accesses straddling 2^XLEN are excluded",
@@ -401,6 +414,30 @@ func init() {
 						prime := pp[0]
 						do(c01Case{Cfg: j.cfg, Word: w, PC: pp[1], VA: 0x8000000000000123, VB: 0x77, Seed: 7, Prime: &prime})
 					}
+				}
+			})
+			// (g) one buffer handed from front end to front end: refused by the smaller subsets, then lifted
+			r.Par(len(jobs), func(i int) {
+				j := jobs[i]
+				ws := buildWords(j.row, 3, 1, 2, false)
+				if len(ws) > 6 {
+					ws = []uint32{ws[0], ws[1], ws[len(ws)/2], ws[len(ws)-2], ws[len(ws)-1]}
+				}
+				// register-register and atomic forms: every rs2 (and every aq/rl combination), so that
+				// every value of the word's top byte occurs
+				if f := rvref.Format(j.row.Name); f == "R" || f == "AMO" {
+					for rs2 := uint32(0); rs2 < 32; rs2++ {
+						for aqrl := uint32(0); aqrl < 4; aqrl++ {
+							if f == "R" && aqrl > 0 {
+								continue
+							}
+							ws = append(ws, j.row.Match|(5<<7|6<<15|rs2<<20|aqrl<<25)&^j.row.Mask)
+						}
+					}
+				}
+				for _, w := range ws {
+					do(c01Case{Cfg: j.cfg, Word: w, PC: 0x2000, VA: 0x8000000000000123, VB: 0x77, Seed: 7, Shared: true})
+					do(c01Case{Cfg: j.cfg, Word: w, PC: 0x2000, VA: 3, VB: 5, Seed: 8, Shared: true})
 				}
 			})
 			r.Sample(c01Case{Cfg: rvx.Cfg{XLEN: 32, M: true, A: true}, Word: 0xfe209ee3, Name: "bne x1,x2,-4", PC: 0, VA: 1, VB: 2, Seed: 6})
